@@ -932,7 +932,17 @@ func checkObjViews(r *listRec, keys []string) error {
 		return nil
 	}
 	var log []any
-	rec := func(v any) { log = append(log, v) }
+	// every callback reads other views of the same object while the outer one is running (re-entrancy)
+	poke := func() {
+		o.Keys()
+		o.Values()
+		o.Count()
+		o.ForEachInt(func(int) {})
+		o.ForEachString(func(string) {})
+		o.MapFloats(func(x float64) any { return x })
+		o.Dict()
+	}
+	rec := func(v any) { log = append(log, v); poke() }
 	fe := map[string]func(){
 		"O":     func() { o.ForEachObject(func(x at.Object) { rec(x) }) },
 		"L":     func() { o.ForEachList(func(x at.List) { rec(x) }) },
